@@ -118,15 +118,37 @@ func (n *cnode) SendConsensusMessage(ctx context.Context, recipients []primitive
 // --- Membership
 func (n *cnode) MyMemberId() primitives.MemberId { return n.id }
 func (n *cnode) RequestOrderedCommittee(ctx context.Context, blockHeight primitives.BlockHeight, randomSeed uint64, prevBlockReferenceTime primitives.TimestampSeconds) ([]interfaces.CommitteeMember, error) {
-	return n.cl.committeeAt(uint64(blockHeight)), nil
+	return n.cl.committeeFor(uint64(blockHeight), prevBlockReferenceTime), nil
 }
 func (n *cnode) RequestCommitteeForBlockProof(ctx context.Context, blockHeight primitives.BlockHeight, prevBlockReferenceTime primitives.TimestampSeconds) ([]interfaces.CommitteeMember, error) {
-	com := n.cl.committeeAt(uint64(blockHeight))
+	com := n.cl.committeeFor(uint64(blockHeight), prevBlockReferenceTime)
 	out := make([]interfaces.CommitteeMember, len(com)) // any order: reversed
 	for i := range com {
 		out[len(com)-1-i] = com[i]
 	}
 	return out, nil
+}
+
+// committeeFor: the committee of a height is in force at the reference time of the PREVIOUS block (vBlock: 1000 + its
+// height; 0 for genesis).  Asked with any other reference time, the membership answers with another epoch's committee:
+// the outsiders only.
+func (cl *cluster) committeeFor(h uint64, prevRef primitives.TimestampSeconds) []interfaces.CommitteeMember {
+	want := primitives.TimestampSeconds(0)
+	if h > 1 {
+		want = primitives.TimestampSeconds(1000 + h - 1)
+	}
+	if cl.prevRefGiven != nil { // a table driver says which previous block it hands to the call
+		want = *cl.prevRefGiven
+	}
+	if prevRef == want || len(cl.ids) == cl.nMembers {
+		return cl.committeeAt(h)
+	}
+	cl.wrongEpochAsked++
+	var out []interfaces.CommitteeMember
+	for _, id := range cl.ids[cl.nMembers:] {
+		out = append(out, interfaces.CommitteeMember{Id: id, Weight: 1})
+	}
+	return out
 }
 
 // --- BlockUtils
@@ -256,6 +278,8 @@ type cluster struct {
 	weights   []uint64
 	byz       map[int]bool
 	rotate    bool     // committee order shifts by one per height
+	prevRefGiven    *primitives.TimestampSeconds
+	wrongEpochAsked int // committee requests with a reference time that is not the previous block's
 	nodes     []*cnode // index = member index; nil for Byzantine members
 	bodies    map[string]bool
 	bodiesMu  sync.Mutex
@@ -313,6 +337,7 @@ func (cl *cluster) idOf(name string) primitives.MemberId {
 
 // committeeAt: ordered committee of a height (leader of view v = position v mod n)
 func (cl *cluster) committeeAt(h uint64) []interfaces.CommitteeMember {
+	// (membership answers go through committeeFor)
 	out := make([]interfaces.CommitteeMember, cl.nMembers)
 	shift := 0
 	if cl.rotate {
